@@ -47,6 +47,17 @@ func (v *Value) IsString() bool {
 	return v.getResolvedValue().Kind() == reflect.String
 }
 
+// needsEscape checks whether the text produced by String() can carry text of the
+// underlying value itself: it is a string or it brings its own String() method.
+// Numbers, bools and the type-name placeholder of unsupported types can not.
+func (v *Value) needsEscape() bool {
+	if v.IsString() {
+		return true
+	}
+	_, isStringer := v.Interface().(fmt.Stringer)
+	return isStringer
+}
+
 // IsBool checks whether the underlying value is a bool
 func (v *Value) IsBool() bool {
 	return v.getResolvedValue().Kind() == reflect.Bool
